@@ -1,4 +1,5 @@
 import Kvass.Driver.Coord
+import Kvass.Driver.K8s
 
 open Kvass.Driver
 
@@ -14,4 +15,5 @@ def main (args : List String) : IO UInt32 := do
   let stdin ← IO.getStdin
   match args with
   | ["coord"] => loop stdin Coord.handle; return 0
+  | ["k8s"] => loop stdin K8s.handle; return 0
   | _ => IO.eprintln "usage: driver <engine>"; return 2
